@@ -824,6 +824,16 @@ func main() {
 		lexDist["string-literals"]++
 	}
 
+	// every number spelling glued to every token that may follow a term (maximal munch decides
+	// where the number ends), and the same with one space between them
+	for _, num := range []string{"0", "1", "12", "1.", "1.5", ".5", "1e3", "1E3", "1e+3", "1e-3", "1.5e3", "1.e3", ".5e3", "1e", "1e+", "0x1", "1_0", "00", "1.5.5", "1e3e3"} {
+		for _, fol := range []string{".a", ".\"k\"", ".[0]", "..", ".", "?", "[0]", " as $x | $x", "|.", ",1", "+1", "-1", "e", "a", ".a.b", ".[]", "?//1", ":", ";", ")", "]", "}", "and 1", "//1", "*2", "%2", "==1", "<1"} {
+			addLex(num + fol)
+			addLex(num + " " + fol)
+			addLex("[" + num + fol + "]")
+			lexDist["number-followers"] += 3
+		}
+	}
 	stLex := ctx.NewStream("lex", "Gojq.Lexer.lex + Gojq.LALR.run (Model/Lexer.lean, Model/LALR.lean over Generated/Lalr.lean): acceptance and the reported *ParseError",
 		"sources: corpus, token mutants, generated programs, every truncation of corpus queries, `def `/`label ` + every suffix (the parser then rejects the FIRST token of the suffix, exposing the lexer's token text and end offset at every byte position), random lexeme soups over the lexer's alphabet, string literals with escapes / interpolation / truncation; answer = ok | err offset token kind; distinct = distinct implementation answers")
 	stLex.Distribution = lexDist
@@ -842,6 +852,32 @@ func main() {
 		}
 	}
 	ctx.RunStream(stLex, lines, impl)
+	// search for a failing input when model and implementation disagree on ACCEPTANCE: jq 1.6 is
+	// asked whether the text is valid syntax; if it sides with the model the text is reported
+	// (extensions of gojq over jq 1.6 make jq reject what both accept — never reported)
+	{
+		orc := ctx.NewOracle("lex-referee", "for each text on which the model lexer/parser and gojq.Parse disagree about acceptance, jq 1.6 compiles the text as the body of an unused definition; a text on which jq agrees with the model is a failing input; 0 cases on a tree where the `lex` stream agrees")
+		for _, d := range stLex.Dis {
+			if d.Idx < 0 || d.Idx >= len(lexSrc) {
+				continue
+			}
+			text := lexSrc[d.Idx]
+			implAcc, modelAcc := d.Impl == "ok", d.Model == "ok"
+			if implAcc == modelAcc {
+				continue
+			}
+			jqAcc, ok := common.JqSyntax(text)
+			orc.Cases++
+			if !ok || jqAcc != modelAcc {
+				orc.Distribution["undecided"]++
+				continue
+			}
+			verb := map[bool]string{true: "accepts", false: "rejects"}
+			ctx.Violate("lex-differs-from-jq:"+common.Hex(text)[:min(60, 2*len(text))], fmt.Sprintf("gojq.Parse %s %q (%s); jq's grammar (the model and jq 1.6) %s it", verb[implAcc], text, d.Impl, verb[modelAcc]),
+				map[string]any{"query": text, "observed": d.Impl, "model": d.Model, "jq_1_6_accepts": jqAcc, "cmd": fmt.Sprintf("gojq -n %q", text)})
+		}
+		orc.Distinct = orc.Cases
+	}
 
 	stParse := ctx.NewStream("parse", "Gojq.Parse.parse / sem / act / dump (Model/Parse.lean): the AST the semantic actions build",
 		"sources: corpus, mutants, generated programs, operator pairs, adjacency forms; answer = canonical dump of the *gojq.Query by reflection (zero fields omitted, nil vs empty slice kept) | err; distinct = distinct implementation answers")
